@@ -1,7 +1,10 @@
 /* C11 harness: the real bintree.c (not part of the library build; compiled from /repo's working tree here).
  * Every node is its own exactly-sized malloc block so ASan sees any access after the deallocator ran.
  *
- *   tree N ROOT l0 r0 l1 r1 …   build nodes 0…N-1 (`-` = NULL)            → ok
+ *   tree N ROOT l0 r0 l1 r1 … [align o0 o1 …]
+ *                                build nodes 0…N-1 (`-` = NULL); node i lives `o(i mod #o)` bytes (even, < 16)
+ *                                into its own block of exactly offset + sizeof(node) bytes, so node addresses
+ *                                take every residue 0, 2, 4, 6 mod 8 the property allows      → ok
  *   lists i j …                  mark these nodes as list nodes             → ok
  *   iter in|pre|post|list [K]    iterate (to completion, or K ≥ 1 calls)    → seq …   (post: node/parent)
  *   resume                       finish an iteration cut short by K         → seq …
@@ -17,13 +20,15 @@
 #include <stdint.h>
 #include "bintree.c"
 
+/* packed + aligned(2): the harness's own accesses must not assume more than the 2-byte alignment the property grants */
 struct hnode {
 	bintree_node_t n; /* first member: a bintree_node_t * is a struct hnode * */
 	int id;
 	int is_list;
-};
+} __attribute__((packed, aligned(2)));
 
-static struct hnode **nodes; /* id -> block (stale after free: only compared, never dereferenced) */
+static struct hnode **nodes; /* id -> node (stale after free: only compared, never dereferenced) */
+static unsigned char *offs;  /* id -> offset of the node inside its malloc block */
 static char *live;
 static int nnodes;
 static bintree_node_t *root;
@@ -34,10 +39,12 @@ static void wipe(void)
 {
 	for (int i = 0; i < nnodes; i++)
 		if (live[i])
-			free(nodes[i]);
+			free((char *)nodes[i] - offs[i]);
 	free(nodes);
+	free(offs);
 	free(live);
 	nodes = NULL;
+	offs = NULL;
 	live = NULL;
 	nnodes = 0;
 	root = NULL;
@@ -80,7 +87,7 @@ static void dealloc(bintree_node_t *n)
 	fflush(stdout);
 	if (id >= 0)
 		live[id] = 0;
-	free(n);
+	free((char *)n - (id >= 0 ? offs[id] : 0)); /* really free the block the node lives in */
 }
 
 static void visit(void *ctx, bintree_node_t *n, bintree_node_t *parent, int depth)
@@ -115,7 +122,7 @@ static bintree_node_t *parse_ptr(const char *w)
 	if (!strcmp(w, "-"))
 		return NULL;
 	int i = atoi(w);
-	return (i >= 0 && i < nnodes) ? &nodes[i]->n : NULL;
+	return (i >= 0 && i < nnodes) ? (bintree_node_t *)nodes[i] : NULL;
 }
 
 int main(void)
@@ -136,24 +143,42 @@ int main(void)
 			puts("ok");
 		} else if (!strcmp(op, "tree")) {
 			char *w = strtok_r(NULL, " \t\r\n", &save);
+			char **tok = NULL;
+			int ntok = 0, nalign = 0, at = -1;
 			wipe();
 			nnodes = w ? atoi(w) : 0;
+			while ((w = strtok_r(NULL, " \t\r\n", &save))) {
+				tok = realloc(tok, (ntok + 1) * sizeof *tok);
+				tok[ntok++] = w;
+			}
+			for (int i = 0; i < ntok; i++)
+				if (!strcmp(tok[i], "align")) {
+					at = i;
+					nalign = ntok - i - 1;
+					break;
+				}
+			if (at < 0)
+				at = ntok;
 			nodes = calloc(nnodes ? nnodes : 1, sizeof *nodes);
+			offs = calloc(nnodes ? nnodes : 1, 1);
 			live = calloc(nnodes ? nnodes : 1, 1);
 			for (int i = 0; i < nnodes; i++) {
-				nodes[i] = malloc(sizeof(struct hnode));
+				int o = nalign ? atoi(tok[at + 1 + i % nalign]) : 0;
+				o = (o < 0 || o > 14) ? 0 : (o & ~1);
+				offs[i] = (unsigned char)o;
+				nodes[i] = (struct hnode *)((char *)malloc(o + sizeof(struct hnode)) + o);
 				nodes[i]->id = i;
 				nodes[i]->is_list = 0;
 				live[i] = 1;
 			}
-			w = strtok_r(NULL, " \t\r\n", &save);
-			root = w ? parse_ptr(w) : NULL;
+			root = at > 0 ? parse_ptr(tok[0]) : NULL;
 			for (int i = 0; i < nnodes; i++) {
-				char *l = strtok_r(NULL, " \t\r\n", &save);
-				char *r = l ? strtok_r(NULL, " \t\r\n", &save) : NULL;
+				char *l = 1 + 2 * i < at ? tok[1 + 2 * i] : NULL;
+				char *r = 2 + 2 * i < at ? tok[2 + 2 * i] : NULL;
 				nodes[i]->n.left = l ? parse_ptr(l) : NULL;
 				nodes[i]->n.right = r ? parse_ptr(r) : NULL;
 			}
+			free(tok);
 			puts("ok");
 		} else if (!strcmp(op, "lists")) {
 			char *w;
@@ -259,9 +284,9 @@ int main(void)
 			}
 			printf("freed");
 			if (op[4] == 'l')
-				bintree_free_left(&nodes[i]->n, dealloc);
+				bintree_free_left((bintree_node_t *)nodes[i], dealloc);
 			else
-				bintree_free_right(&nodes[i]->n, dealloc);
+				bintree_free_right((bintree_node_t *)nodes[i], dealloc);
 			printf("\n");
 		} else {
 			puts("bad-op");
